@@ -65,6 +65,15 @@ func (u *Unit) addrEscapes(v ssa.Value, depth int) bool {
 
 // closureEscapes: the closure value may be invoked by code we do not execute in context.
 func (u *Unit) closureEscapes(mc *ssa.MakeClosure, depth int) bool {
+	return u.fnValueEscapes(mc, depth, map[ssa.Value]bool{})
+}
+
+// fnValueEscapes: v is a closure value or a phi of closure values (inRangeStart := f; switch { inRangeStart = g }).
+func (u *Unit) fnValueEscapes(mc ssa.Value, depth int, seen map[ssa.Value]bool) bool {
+	if seen[mc] {
+		return false
+	}
+	seen[mc] = true
 	refs := mc.Referrers()
 	if refs == nil {
 		return false
@@ -72,6 +81,10 @@ func (u *Unit) closureEscapes(mc *ssa.MakeClosure, depth int) bool {
 	for _, r := range *refs {
 		switch x := r.(type) {
 		case *ssa.DebugRef:
+		case *ssa.Phi:
+			if depth > 6 || u.fnValueEscapes(x, depth+1, seen) {
+				return true
+			}
 		case *ssa.Defer:
 			if x.Call.Value != mc {
 				return true
